@@ -85,8 +85,8 @@ CHECKS.update({
    text="Bounded stand-in (not proof): for every rule map of a finite family (all action kinds, include nesting, return, back-references, names and patterns with quotes, backslashes, <>& and non-ASCII) the rule set and the built definition are marshalled to JSON, unmarshalled and rebuilt; rule sets must be structurally equal, symbol tables equal, and token streams / errors equal on 12 inputs. encoding/json's behaviour cannot usefully be axiomatised for contracts.",
    note="Bound: states Root (1-2 rules over a 9-rule alphabet; thorough 16), A (1-3 rules over a reduced alphabet), thorough adds B. That equal compiled tables give equal behaviour on every input follows from StatefulLexer.Next's contract (C03), which is proved.",
    ref="DESIGN.md section 4, C16"),
- "C09": dict(level="other", technique="frame obligations from the contract framework (static, per write site) + bounded coherence check of the one shared cache; no schedule is explored",
-   text="This family has no notion of interleaving; the schedule quantifier is not decided. What is decided is the sufficient condition the promise rests on: in every function reachable from Parse*, Lex*, String, ebnf.Parse*, the lexers' Next and the actions, each store / map update / append / copy / delete has the obligation 'the target is allocated in this function or is per-call state, not (reachable from) a shared Parser, Definition, grammar node or package-level value'. The one shared written structure, the back-reference cache (a sync.Map), is checked by a bounded stand-in for coherence: what it returns is independent of what was asked before. One deductive obligation belongs here too: LexString gives every lexer a freshly allocated state stack (no two lexers of one definition share it).",
+ "C09": dict(level="other", technique="frame obligations of the contract framework (deductive, for the 54 runtime functions under contract) + a static provenance scan of every write site reachable at run time + bounded coherence check of the one shared cache; no schedule is explored",
+   text="This family has no notion of interleaving; the schedule quantifier is not decided. What is decided is the sufficient condition the promise rests on: in every function reachable from Parse*, Lex*, String, ebnf.Parse*, the lexers' Next and the actions, each store / map update / append / copy / delete has the obligation 'the target is allocated in this function or is per-call state, not (reachable from) a shared Parser, Definition, grammar node or package-level value'. The one shared written structure, the back-reference cache (a sync.Map), is checked by a bounded stand-in for coherence: what it returns is independent of what was asked before. For the 54 runtime functions under contract the same statement is discharged deductively: their 384 frame obligations (every store, map update, copy and callee effect lies inside the function's modifies clause or in memory allocated by the call) are tagged for this property, the modifies clauses are checked to name only per-call memory (parse context, peeking lexer, stateful lexer, position; never a Parser, grammar node or lexer definition), and LexString is proved to give every lexer a freshly allocated state stack.",
    note="Assumed: sync.Map, regexp.Regexp, reflect and text/scanner instances are safe as documented; the provenance classification is intra-procedural and type-based (a write through an interface or into a value handed out by user code is not seen). No data-race detection, no interleavings.",
    ref="DESIGN.md section 4, C09"),
 })
